@@ -622,6 +622,11 @@ def simplify_boolean_expressions(source: str) -> str:
 
             continue
 
+        try:
+            constants.COMPARISON_OPERATORS[type(operator)](left, right)
+        except TypeError:
+            continue  # e.g. "a" < 1: the comparison raises at runtime, so it has no constant value
+
         if isinstance(operator, ast.Eq):
             yield node, ast.Constant(value=left == right, kind=None)
 
